@@ -216,7 +216,7 @@ func c02Exec(raw json.RawMessage, hist []string, deep bool) *bfsResult {
 func init() {
 	bfsSystems["c02"] = c02Exec
 	checks["C02"] = func(tier string) int {
-		run := ev.NewRun("C02", tier, "model_checking")
+		run := newRun("C02", tier, "model_checking")
 		arg := c02Arg{Slots: map[string][]int{"A": {0, 1}, "B": {0}}}
 		depth := 8
 		if tier == "thorough" {
